@@ -731,13 +731,17 @@ func (e *kvElection) Stop() error {
 	case <-time.After(5 * time.Second):
 	}
 
-	if wasLeader && e.onDemote != nil {
+	e.mu.RLock()
+	onDemote := e.onDemote
+	e.mu.RUnlock()
+
+	if wasLeader && onDemote != nil {
 		log.Info("leader_demoted",
 			append(e.logWithContext(e.ctx),
 				zap.String("reason", "stop"),
 			)...,
 		)
-		e.onDemote()
+		onDemote()
 	}
 
 	return nil
@@ -883,7 +887,11 @@ func (e *kvElection) StopWithContext(ctx context.Context, opts StopOptions) erro
 		}
 	}
 
-	if wasLeader && e.onDemote != nil {
+	e.mu.RLock()
+	onDemote := e.onDemote
+	e.mu.RUnlock()
+
+	if wasLeader && onDemote != nil {
 		log := e.getLogger()
 		log.Info("leader_demoted",
 			append(e.logWithContext(ctx),
@@ -892,35 +900,29 @@ func (e *kvElection) StopWithContext(ctx context.Context, opts StopOptions) erro
 			)...,
 		)
 
-		e.mu.RLock()
-		onDemote := e.onDemote
-		e.mu.RUnlock()
+		if opts.WaitForDemote {
+			// Wait for callback to complete
+			done := make(chan struct{})
+			go func() {
+				onDemote()
+				close(done)
+			}()
 
-		if onDemote != nil {
-			if opts.WaitForDemote {
-				// Wait for callback to complete
-				done := make(chan struct{})
-				go func() {
-					onDemote()
-					close(done)
-				}()
-
-				select {
-				case <-done:
-				case <-time.After(timeout):
-					log.Warn("ondemote_callback_timeout",
-						append(e.logWithContext(ctx),
-							zap.Duration("timeout", timeout),
-						)...,
-					)
-					return fmt.Errorf("OnDemote callback timeout exceeded: %v", timeout)
-				case <-ctx.Done():
-					// Context cancelled
-					return ctx.Err()
-				}
-			} else {
-				go onDemote()
+			select {
+			case <-done:
+			case <-time.After(timeout):
+				log.Warn("ondemote_callback_timeout",
+					append(e.logWithContext(ctx),
+						zap.Duration("timeout", timeout),
+					)...,
+				)
+				return fmt.Errorf("OnDemote callback timeout exceeded: %v", timeout)
+			case <-ctx.Done():
+				// Context cancelled
+				return ctx.Err()
 			}
+		} else {
+			go onDemote()
 		}
 	}
 
